@@ -51,6 +51,7 @@ def _argtext(call):
 
 def run(repo, rep, tier):
     no_memo_tables(repo, rep, 'C12.R12')
+    inherited_elements_marked_unconditionally(repo, rep)
     namespace_validated_first(repo, rep, 'C12.R10', lambda n: 'Class' in n or 'Qualifier' in n)
     r1 = rep.rule('C12.R1', 'CIM names are compared case-insensitively')
     r2 = rep.rule('C12.R2', 'no uncalled string method in a comparison')
@@ -898,3 +899,59 @@ def no_memo_tables(repo, rep, rid):
         node = probe
     if len(memo_stores(_F)) != 1:
         raise AnalysisError(rid + ' recogniser broken')
+
+
+def inherited_elements_marked_unconditionally(repo, rep):
+    """C12.R13: an element that the new class does not redeclare is copied
+    from the superclass and marked propagated - the element and every one of
+    its qualifiers - whatever the state of the superclass's element.  A
+    condition on that state (e.g. `if not obj.propagated:`) skips the
+    marking for elements the superclass itself overrides: their qualifiers
+    keep propagated=False two levels further down, and the wrong flag is
+    stored and handed on to all subclasses."""
+    r13 = rep.rule('C12.R13', 'the propagated marking of inherited elements '
+                   'depends only on whether the class redeclares them')
+    RES = 'pywbem_mock/_resolvermixin.py'
+    cls = repo.cls(RES, 'ResolverMixin')
+    f = cls.methods.get('_resolve_objects')
+    if f is None:
+        raise AnalysisError('ResolverMixin._resolve_objects vanished')
+    r13.functions.add(f.fq)
+    parent = {}
+    for n in ast.walk(f.node):
+        for c in ast.iter_child_nodes(n):
+            parent[c] = n
+    marks = [n for n in walk_no_nested(f.node)
+             if isinstance(n, ast.Assign) and len(n.targets) == 1 and
+             isinstance(n.targets[0], ast.Attribute) and
+             n.targets[0].attr == 'propagated' and
+             isinstance(n.value, ast.Constant) and n.value.value is True]
+    if len(marks) < 2:
+        raise AnalysisError('_resolve_objects: the propagated markings of '
+                            'the copied element and its qualifiers were not '
+                            'found (%d)' % len(marks))
+    for mk in marks:
+        r13.sites += 1
+        conds = []
+        cur = mk
+        while cur in parent and parent[cur] is not f.node:
+            up = parent[cur]
+            if isinstance(up, ast.If):
+                conds.append(up.test)
+            cur = up
+        bad = [t for t in conds
+               if not (isinstance(t, ast.Compare) and len(t.ops) == 1 and
+                       isinstance(t.ops[0], (ast.In, ast.NotIn))) and
+               not (isinstance(t, ast.Name)) and
+               not (isinstance(t, ast.UnaryOp) and
+                    isinstance(t.operand, ast.Name))]
+        r13.ob(not bad, norm(mk, 50),
+               {'under': [norm(t, 40) for t in conds]})
+        for t in bad[:1]:
+            rep.finding(r13, f.qualname, norm(mk, 50) + ' under ' +
+                        norm(t, 40), 'conditional-marking', RES, mk.lineno,
+                        'the marking %s runs only when %s: inherited '
+                        'elements for which that does not hold keep '
+                        'propagated=False on themselves or their qualifiers '
+                        '(visible from the third level of a hierarchy on)'
+                        % (norm(mk, 40), norm(t, 40)))
